@@ -643,7 +643,13 @@ def ops_equal(a, b, literal=True):
     if isinstance(a, Spec) or isinstance(b, Spec):
         return isinstance(a, Spec) and isinstance(b, Spec) and ops_equal(a.spec, b.spec, literal)
     if type(a) is not type(b):
-        return False
+        if literal or isinstance(a, (tuple, list, dict, slice)) or isinstance(b, (tuple, list, dict, slice)):
+            return False
+        # (Python's ==, which the tuple of steps goes by, looks through the type of numbers: 0 == 0.0 == complex(-0.0, 0.0))
+        try:
+            return bool(a == b)
+        except Exception:
+            return False
     if isinstance(a, (tuple, list)):
         return len(a) == len(b) and all(ops_equal(x, y, literal) for x, y in zip(a, b))
     if isinstance(a, dict):
